@@ -619,3 +619,28 @@ def malformed_battery():
 
 
 malformed_judge = literal_judge
+
+
+# ------------------------------------------------------------------ C19 line numbers
+
+def lines_battery():
+    S = [("in", "A", 1, 0), ("in", "CLK", 1, 0), ("out", "Y", 8)]
+    b = []
+
+    def sc(src, lines, note, **kw):
+        kw.setdefault("default_answer", [0])
+        return Scenario(src, S, expect={"lines": lines}, note=note, max_rows=100, **kw)
+    b.append(sc("A Y\n0 X\n\n1 X\n# c\n0 X\n", [2, 4, 6], "blank and comment lines"))
+    b.append(sc("\n\nA Y\n0 X\n1 X\n", [4, 5], "blank lines before the header"))
+    b.append(sc("\r\n\r\nA Y\r\n0 X\r\n\r\n1 X\r\n", [4, 6], "CRLF with leading blank lines"))
+    b.append(sc("\r\nA Y\r\n0 X\r\n1 X\r\n", [3, 4], "CRLF with one leading blank line"))
+    b.append(sc("A Y\nloop(i,2)\n\n0 X\nend loop\n1 X\n", [4, 4, 6], "blank line below a loop header"))
+    b.append(sc("A Y\nloop(i,2)\n# one\n# two\nloop(j,1)\n\n0 X\nend loop\nend loop\n", [7, 7], "comments below nested loop headers"))
+    b.append(sc("A Y\r\nlet k = 0;\r\nwhile(k < 2)\r\n\r\nlet k = k + 1;\r\n0 X\r\nend while\r\n1 X\r\n", [6, 6, 8], "CRLF while with a blank line"))
+    b.append(sc("CLK Y\nC 1\n0 X\n\nC 2\n", [2, 2, 2, 3, 5, 5, 5], "two clocked rows on different lines"))
+    b.append(sc("A Y\nX 1\nrepeat(2) 0 X\n1 X", [2, 2, 3, 3, 4], "X expansion, repeat, last line without newline"))
+    b.append(sc("A Y\n0 X # trailing comment\n# a\n# b\n# c\n1 X\n", [2, 6], "comment block"))
+    return b
+
+
+lines_judge = literal_judge
